@@ -6,7 +6,11 @@ HOOK_COMMITS = ["d85c6ee", "170bde9", "43ffa35", "8043914", "4c6f2d6", "8d2eb59"
 
 # id -> (engine, category, technique, level text, level note, design ref)
 CHECKS = {
- "C05": ("E3-enumeration", "exploration",
+ "C18": ("E1-simnet-explorer", "model_checking",
+   "exhaustive enumeration of request kinds, read-only flag assignments and NAT x vote x configuration timelines on real nodes over a simulated network with a virtual clock",
+   "Real client and server nodes on the simulated network: every request kind (valid and every single-field deviation) to a client; scripted requesters with every ro flag value against servers with/without a bootstrap list; every subset of responders / storers flagging ro on lookups and on put acknowledgements; adaptive, explicit-server and public_ip nodes over 35 virtual minutes for every NAT rule and vote pattern (thorough: plus every single lost datagram in the first 10 s). The mode switch, the self ping, the firewalled flag and table contents are read from snapshots and the datagram log.",
+   "Tie votes accept either outcome; four voting peers.", "DESIGN.md section 6, C18"),
+  "C05": ("E3-enumeration", "exploration",
    "bounded-exhaustive grammar enumeration through the real decoder (catch_unwind) and delivery of the single-deviation neighbourhood to live real nodes on the simulated network, followed by liveness probes",
    "All single and double field-level deviations (17 classes x every field) and structural damage of all 17 KRPC message shapes go through the real decoder; every single-deviation datagram is delivered to live server- and client-mode nodes, as the (right address, right tid) reply to every lookup kind and - with all error codes and code mixes in all arrival orders - to every put kind; all reply-latency timelines of length 7 (quick) / 9 (thorough) over {10 ms, 520 ms, 3 s}. Actor threads must survive, probes (ping, info, put+get) must succeed, no API future may panic.",
    "A grammar neighbourhood, not all byte strings; release arithmetic.", "DESIGN.md section 6, C05"),
